@@ -146,7 +146,8 @@ CLAIMED = {
 }
 
 NOT_APPLICABLE = {
-    "C15": "equivalence of two whole-program evaluations through parser, zip and filesystem layers that cannot be executed symbolically (DESIGN.md §5)",
+    "C15": "equivalence of a source-tree evaluation and an .arraiz bundle evaluation: the bundle side runs through archive/zip, afero/zipfs and a regexp over go.mod, none of which the executor can interpret, and no scalar kernel decides the equivalence (DESIGN.md §5)",
+    "C18": "every route into the sandbox goes through the standard library scope, which the interpreter loads from an embedded .arraiz zip bundle (embed.FS + archive/zip + the bundle runner): the executor got as far as (embed.FS).Open and cannot go further; the parser-free part (which scope three construction sites hand to the evaluator) decides nothing about indirect routes (DESIGN.md §5)",
 }
 
 PENDING = "check not registered yet in this revision (harness under construction); see DESIGN.md §4"
